@@ -13,13 +13,17 @@ INDEXS = ['[C]', '[Ring1]', '[Ring2]', '[Branch1]', '[=Branch1]', '[#Branch1]', 
           '[#Branch2]', '[O]', '[N]', '[=N]', '[=C]', '[#C]', '[S]', '[P]']
 LEGACY = ['[Branch1_1]', '[Branch1_2]', '[Branch1_3]', '[Branch2_1]', '[Branch2_2]', '[Branch3_3]', '[Expl=Ring1]',
           '[Expl#Ring1]', '[Expl/Ring1]', '[Expl\\Ring2]', '[Expl=Ring3]', '[C@@Hexpl]', '[O+expl]', '[13Cexpl]',
-          '[=N+expl]', '[/C@expl]', '[Cexpl]', '[NHexpl]', '[O-expl]', '[Fe++expl]', '[#C-expl]', '[CH3expl]']
+          '[=N+expl]', '[/C@expl]', '[Cexpl]', '[NHexpl]', '[O-expl]', '[Fe++expl]', '[#C-expl]', '[CH3expl]',
+          '[cexpl]', '[nexpl]', '[cHexpl]', '[nHexpl]', '[cH1expl]', '[=cexpl]', '[seexpl]', '[oexpl]', '[c+expl]',
+          '[expl]', '[=expl]', '[1expl]', '[Hexpl]', '[hexpl]', '[C@@@expl]', '[Xxexpl]']
 JUNK = ['[', ']', '[]', '[[C]]', '[C', 'C]', 'C', '.', '..', '[nop]', '[epsilon]', '[ch1]', '[xng2]', '[Ceps]',
         '[Branch4]', '[Ring0]', '[Ring9]', '[=Branch]', '[Branch1_4]', '[Expl=Ring4]', '[expl]', '[=expl]', '[/expl]',
         '[C+0]', '[C+10]', '[CH10]', '[CHH]', '[C@@@]', '[Cc]', '[c]', '[Xx]', '[?]', '[*]', '[٣C]', '[CH٣]',
         '[C+١]', '[é]', '[C\x00]', ' ', '\n', '[ C]', '[C ]', '[=]', '[#]', '[/]', '[\\]', '[==C]', '[C=]',
         '[12]', '[1C2]', '[HH1]', '[H1]', '[Hexpl]', '[Zz]', '[A]', '[Ringng1]', '[chch]', '[ngng]', '[-Ring1]',
-        '[--Ring1]', '[=/Ring1]', '[Branch1][', '[C][', '].[', '[C].', '.[C]', '[C]..[C]', '[nop', 'nop]', '[.]']
+        '[--Ring1]', '[=/Ring1]', '[Branch1][', '[C][', '].[', '[C].', '.[C]', '[C]..[C]', '[nop', 'nop]', '[.]',
+        '{}', '{', '}', '{0}', '{1}', '{x}', '[C]{}', '{}[C', '[C][N{1}', '[C][{x}', '[{}]', '%s', '%d', '%(x)s', '[C%s',
+        '\\', '\\n', '[C\\]']
 
 
 def rand_selfies(rnd, n, pools=(ATOMS, BRANCH, RING), weights=(6, 2, 2), dot=0.02, nop=0.03):
